@@ -452,6 +452,22 @@ def r8_children_not_keyed_by_name(ctx, mi) -> None:
       if key is not None and isinstance(key, ast.Attribute) and key.attr == 'name' and isinstance(key.value, ast.Name) \
           and key.value.id in lvars:
         hits.append(x)
+      elif key is not None and isinstance(x, (ast.Subscript, ast.Call, ast.DictComp)):
+        # a key computed from the child (its serialisation, its domain, ...) merges children just the same
+        derived = set(lvars)
+        for _ in range(3):
+          for a_ in ast.walk(m.node):
+            if isinstance(a_, ast.Assign) and len(a_.targets) == 1 and isinstance(a_.targets[0], ast.Name) \
+                and any(isinstance(y, ast.Name) and y.id in derived for y in ast.walk(a_.value)):
+              derived.add(a_.targets[0].id)
+        kr = flow.resolve_local(m.node, key)
+        base_is_map = isinstance(x, ast.Subscript) and isinstance(x.value, ast.Name) and any(
+            isinstance(a_, (ast.Assign, ast.AnnAssign)) and isinstance(getattr(a_, 'value', None), (ast.Dict, ast.Call))
+            and any(isinstance(t_, ast.Name) and t_.id == x.value.id for t_ in (a_.targets if isinstance(a_, ast.Assign) else [a_.target]))
+            and (isinstance(a_.value, ast.Dict) or (dotted(a_.value.func) or '').rsplit('.', 1)[-1] in ('dict', 'defaultdict', 'OrderedDict'))
+            for a_ in ast.walk(m.node))
+        if (base_is_map or isinstance(x, ast.DictComp)) and any(isinstance(y, ast.Name) and y.id in derived for y in ast.walk(kr)):
+          hits.append(x)
     ctx.check(not hits, 'R8', f'{ci.name}.{m.name}: children kept per (parent value, child)', hits[0] if hits else m.node,
               'children are converted one by one, never merged by name',
               f'`{unparse(hits[0], 70) if hits else ""}` collects the children in a map keyed by their name: children with the same name '
